@@ -59,8 +59,19 @@ def oidArcs (c : Bytes) : Option (List Nat) :=
     else some (2 :: (first - 80) :: rest)
   | _ => none
 
+/-- every sub-identifier minimal (no leading 0x80) and the content ends a group -/
+def oidMinimal (c : Bytes) : Bool :=
+  let rec go (bs : Bytes) (start : Bool) : Bool :=
+    match bs with
+    | [] => start
+    | b :: rest =>
+      if start && b.toNat == 128 then false
+      else go rest (b.toNat < 128)
+  !c.isEmpty && go c true
+
+/-- OBJECT IDENTIFIER in DER: every sub-identifier in its shortest form (X.690 §8.19.2) -/
 def asOid : Asn1 → Option (List Nat)
-  | .prim 0 6 c => oidArcs c
+  | .prim 0 6 c => if oidMinimal c then oidArcs c else none
   | _ => none
 
 /-- BIT STRING as (unused bit count, octets) -/
@@ -129,16 +140,6 @@ def intMinimal (c : Bytes) : Bool :=
   | [_] => true
   | a :: b :: _ =>
     !((a.toNat == 0 && b.toNat < 128) || (a.toNat == 255 && b.toNat ≥ 128))
-
-/-- every sub-identifier minimal (no leading 0x80) and the content ends a group -/
-def oidMinimal (c : Bytes) : Bool :=
-  let rec go (bs : Bytes) (start : Bool) : Bool :=
-    match bs with
-    | [] => start
-    | b :: rest =>
-      if start && b.toNat == 128 then false
-      else go rest (b.toNat < 128)
-  !c.isEmpty && go c true
 
 def bitStringCanonical (c : Bytes) : Bool :=
   match c with
